@@ -390,8 +390,12 @@ func (w *c21World) publish(replicas int, crs []c21CR, knownShrink bool, between 
 		finished := false
 		// whatever happens below (a failing oracle inside between panics through rapid), the
 		// operator goroutine is let run to its end
+		owed := false // an arrival was taken but its release not yet given
 		defer func() {
 			g.armed.Store(false)
+			if owed {
+				g.release <- struct{}{}
+			}
 			for !finished {
 				select {
 				case err = <-done:
@@ -410,12 +414,14 @@ func (w *c21World) publish(replicas int, crs []c21CR, knownShrink bool, between 
 			case err = <-done:
 				finished = true
 			case what := <-g.arrived:
+				owed = true
 				if what == "txn" && !ranBetween {
 					ranBetween = true
 					w.splitPublish = true
 					berr = between()
 				}
 				g.release <- struct{}{}
+				owed = false
 			case <-deadline:
 				return fmt.Errorf("%w: operator publish did not finish", errC21Inconclusive)
 			}
